@@ -316,6 +316,30 @@ Definition validate_with (cands : list N -> N -> trie -> pres trie)
 
 Definition validate := validate_with cands_cover origin_asn.
 
+(* ---- the policy consumer: table/src/policy.rs Condition::Rpki(expected)
+     rpki.and_then(|r| r.validate(source, net, attr)).is_some_and(|v| v.state == *expected)
+   (the table is always handed over: PolicyAssignment::needs_rpki is true for an
+   assignment that contains the condition), and validate on a non-IP NLRI *)
+Definition vstate_eqb (a b : vstate) : bool :=
+  match a, b with
+  | NotFound, NotFound | Valid, Valid | Invalid, Invalid => true
+  | _, _ => false
+  end.
+
+Definition cond_of (r : option vres) (expected : vstate) : bool :=
+  match r with Some v => vstate_eqb (v_state v) expected | None => false end.
+
+Definition cond_rpki (t : rtab) (local_asn : N) (n : net) (attrs : list (N * list N)) (expected : vstate)
+  : pres bool :=
+  match validate t local_asn n attrs with
+  | PPanic => PPanic
+  | POk r => POk (cond_of r expected)
+  end.
+
+(* `_ => return None` for every NLRI that is not Nlri::V4 / Nlri::V6 *)
+Definition validate_other (t : rtab) (local_asn : N) (attrs : list (N * list N)) : pres (option vres) :=
+  POk None.
+
 (* ---- histories *)
 Inductive op :=
 | OInsert (s : N) (n : net) (mx asn : N)
@@ -323,6 +347,8 @@ Inductive op :=
 | ODrop (s : N)
 | OReset (s : N) (l : list (net * N * N))
 | OValidate (n : net) (local_asn : N) (attrs : list (N * list N))
+| OValidateOther (kind : N) (n : net) (local_asn : N) (attrs : list (N * list N))
+    (* validate on a non-IP NLRI (labeled unicast, VPN) carrying the prefix [n] *)
 | OIter.
 
 Definition mk_roa (s mx asn : N) : roa := {| r_max := mx; r_as := asn; r_src := s |}.
@@ -333,7 +359,7 @@ Definition apply_op (o : op) (t : rtab) : rtab :=
   | ORemove s n mx asn => remove n (mk_roa s mx asn) t
   | ODrop s => drop_source s t
   | OReset s l => reset s (map (fun x => (fst (fst x), mk_roa s (snd (fst x)) (snd x))) l) t
-  | OValidate _ _ _ | OIter => t
+  | OValidate _ _ _ | OValidateOther _ _ _ _ | OIter => t
   end.
 
 Definition run_ops (ops : list op) (t : rtab) : rtab := fold_left (fun t o => apply_op o t) ops t.
@@ -368,7 +394,14 @@ Section Observe.
             | OValidate n la attrs =>
                 match vf t la n attrs with
                 | PPanic => PPanic
-                | POk r => POk (VOpt v_vres r)
+                | POk r => POk (VL [VOpt v_vres r;
+                                    VL [VB (cond_of r NotFound); VB (cond_of r Valid); VB (cond_of r Invalid)]])
+                end
+            | OValidateOther _ _ la attrs =>
+                match validate_other t la attrs with
+                | PPanic => PPanic
+                | POk r => POk (VL [VOpt v_vres r;
+                                    VL [VB (cond_of r NotFound); VB (cond_of r Valid); VB (cond_of r Invalid)]])
                 end
             | _ => dump t'
             end in
